@@ -788,7 +788,9 @@ impl<'a> GeneratorState<'a> {
                             self.asm(BNE, &ExprType::Label(ifend_label.clone()), 0, false)?;
                             self.asm(INC, expr_type, pos, true)?;
                             self.label(&ifend_label)?;
-                            self.flags = FlagsState::AbsoluteX(variable.clone());
+                            // N reflects the low byte when it did not wrap: the flags
+                            // don't describe the 16 bits element
+                            self.flags = FlagsState::Unknown;
                             self.carry_flag_ok = false;
                         } else {
 // Decrement :
